@@ -6,6 +6,8 @@ package main
 import (
 	"flag"
 	"fmt"
+	"io"
+	"log/slog"
 	"os"
 
 	"verif/harness/internal/fw"
@@ -28,6 +30,7 @@ func main() {
 	if devnull, err := os.OpenFile(os.DevNull, os.O_WRONLY, 0); err == nil {
 		os.Stdout = devnull
 	}
+	slog.SetDefault(slog.New(slog.NewTextHandler(io.Discard, nil)))
 	p, ok := props.All[id]
 	if !ok {
 		fmt.Fprintln(os.Stderr, "unknown property", id)
